@@ -3,7 +3,9 @@ package bed
 import (
 	"context"
 	"fmt"
+	"hash/fnv"
 	"sync"
+	"sync/atomic"
 	"time"
 
 	octx "github.com/orda-io/orda/client/pkg/context"
@@ -32,6 +34,18 @@ type Client struct {
 	DTs   []*DT
 	req   uint32
 	SDK   bool // connected through the grpc front; synced with Cli.Sync()
+	// SyncType is what this client's ClientMessage tells the server (direct mode: the harness
+	// transports the packs itself, so the SDK object stays MANUALLY whatever is announced).
+	SyncType model.SyncType
+}
+
+// ClientMessage is the registration message of this client.
+func (c *Client) ClientMessage() *model.ClientMessage {
+	m := proto.Clone(model.NewClientMessage(c.Model)).(*model.ClientMessage)
+	if !c.SDK {
+		m.SyncType = c.SyncType
+	}
+	return m
 }
 
 // Transition is a state change reported to the state-change handler.
@@ -56,7 +70,13 @@ type DT struct {
 func (b *Bed) NewClient(col, alias string) *Client {
 	cli := orda.NewClient(&orda.ClientConfig{CollectionName: col, SyncType: model.SyncType_MANUALLY}, alias)
 	crdt.QuietClient(cli)
-	return &Client{B: b, Col: col, Alias: alias, Cli: cli}
+	st := model.SyncType_MANUALLY
+	h := fnv.New32a()
+	h.Write([]byte(alias))
+	if (h.Sum32()+atomic.AddUint32(&b.nClients, 1))%3 == 0 {
+		st = model.SyncType_REALTIME // about every third direct-mode client registers as a realtime one (a function of the case alone)
+	}
+	return &Client{B: b, Col: col, Alias: alias, Cli: cli, SyncType: st}
 }
 
 // Register performs the client request/response exchange (ProcessClient).
@@ -65,7 +85,7 @@ func (c *Client) Register() error {
 		return fmt.Errorf("client has no datatype yet (its model is reached through a datatype)")
 	}
 	out := Guard(10*time.Second, func(ctx context.Context) error {
-		_, err := c.B.Svc.ProcessClient(ctx, proto.Clone(model.NewClientMessage(c.Model)).(*model.ClientMessage))
+		_, err := c.B.Svc.ProcessClient(ctx, c.ClientMessage())
 		return err
 	})
 	if out.Panic != "" {
